@@ -913,6 +913,32 @@ def _revrange_next(eng, m, args, fr, dty):
     return NONE()
 
 
+@model(r'^(std::ops::)?RangeInclusive::<(\w+)>::new$')
+def _rangeinc_new(eng, m, args, fr, dty):
+    return Struct('RangeInclusive', [args[0], args[1], mkbool(False)])
+
+
+@model(r'^<(std::ops::)?RangeInclusive<(\w+)> as IntoIterator>::into_iter$')
+def _rangeinc_into_iter(eng, m, args, fr, dty):
+    return args[0]
+
+
+@model(r'^<(std::ops::)?RangeInclusive<(\w+)> as Iterator>::next$')
+def _rangeinc_next(eng, m, args, fr, dty):
+    r = eng.deref(args[0], fr)
+    s, e, done = r.fields
+    if concrete(done.e if done.c is None else z3.BoolVal(done.c)):
+        return NONE()
+    lt = (s.e < e.e) if s.signed else z3.ULT(s.e, e.e)
+    if eng.branch_bool(lt):
+        r.fields[0] = Int(s.e + 1, s.w, s.signed)
+        return Some(s)
+    if eng.branch_bool(s.e == e.e):
+        r.fields[2] = mkbool(True)
+        return Some(s)
+    return NONE()
+
+
 # ---------------------------------------------------------------- decimal text <-> BigInt
 def _dec_key(items):
     return tuple(b.e.get_id() for b in items)
